@@ -28,6 +28,7 @@ CONSTANTS
   FailSaves = FALSE
   Focus = FALSE
   Record = TRUE
+  Scrapes = FALSE
   Marking = FALSE
   WindAt = 0
   Gaps = {}
